@@ -57,7 +57,8 @@ Fixpoint calls (c : cfg) (s : st) (t0 t1 : Z) (ts : list Z) : Z :=
 Inductive entry := Form | BasicAuth.
 Inductive backend_answer := PwGood | PwBad | PwError.
 
-Record login_out := { status : Z; backend_called : bool }.
+(* lookups: how many times PasswordAuthenticate was invoked for this attempt *)
+Record login_out := { status : Z; backend_called : bool; lookups : Z }.
 
 (* projected status: 429 refused by the limiter, 200 let through (any non-error class),
    401 bad credentials, 500 backend error *)
@@ -65,8 +66,8 @@ Definition login_step (c : cfg) (s : st) (e : entry) (t : Z) (a : backend_answer
   let (s', ok) := allow c s t in
   if ok then
     (s', {| status := match a with PwGood => 200 | PwBad => 401 | PwError => 500 end;
-            backend_called := true |})
-  else (s', {| status := 429; backend_called := false |}).
+            backend_called := true; lookups := 1 |})
+  else (s', {| status := 429; backend_called := false; lookups := 0 |}).
 
 Fixpoint login_run (c : cfg) (s : st) (reqs : list (entry * Z * backend_answer)) : list login_out :=
   match reqs with
@@ -76,6 +77,61 @@ Fixpoint login_run (c : cfg) (s : st) (reqs : list (entry * Z * backend_answer))
 
 Definition backend_calls (outs : list login_out) : Z :=
   Z.of_nat (length (filter backend_called outs)).
+
+(* ---- the password backend as an answer stream.  A backend (LDAP, Okta, a command, a file) gives
+        one of three answers to a lookup: the password is right, it is wrong, or the backend could
+        not tell (connection reset, time-out, 5xx).  `answers` is what it WOULD answer to the first,
+        second, ... lookup made for one attempt (a missing answer is an error).  app.go
+        checkUserPassword asks `tries` times at most, again only after an error; the code asks once:
+        `code_tries`.  `login_step_tries 1` is `login_step` on the first answer (Proofs); a larger
+        `tries` is the "retry the directory on an error" shape and exists for the refutation.      *)
+Definition answers := list backend_answer.
+Definition first_answer (a : answers) : backend_answer := match a with [] => PwError | x :: _ => x end.
+
+Fixpoint ask (tries : nat) (a : answers) : Z * backend_answer :=
+  match tries with
+  | O => (0, PwError)
+  | S n => match first_answer a with
+           | PwError => match n with
+                        | O => (1, PwError)
+                        | S _ => let (k, r) := ask n (tl a) in (1 + k, r)
+                        end
+           | x => (1, x)
+           end
+  end.
+
+Definition code_tries : nat := 1%nat.
+
+(* lib/authenticators/okta passwordAuthenticate: one POST to the authn endpoint per lookup;
+   401 -> wrong password; any other status but 200 -> error; 200 with an undecodable body -> error;
+   200 with status word SUCCESS or MFA_REQUIRED -> right; any other status word -> wrong *)
+Inductive okta_body := OSuccess | OMfaRequired | OOtherStatus | OUndecodable.
+Definition okta_answer (http : Z) (b : okta_body) : backend_answer :=
+  if http =? 401 then PwBad
+  else if negb (http =? 200) then PwError
+  else match b with OSuccess | OMfaRequired => PwGood | OOtherStatus => PwBad | OUndecodable => PwError end.
+
+Definition status_of (a : backend_answer) : Z := match a with PwGood => 200 | PwBad => 401 | PwError => 500 end.
+
+Definition login_step_tries (tries : nat) (c : cfg) (s : st) (e : entry) (t : Z) (a : answers) : st * login_out :=
+  let (s', ok) := allow c s t in
+  if ok then
+    let (k, r) := ask tries a in
+    (s', {| status := status_of r; backend_called := 0 <? k; lookups := k |})
+  else (s', {| status := 429; backend_called := false; lookups := 0 |}).
+
+Fixpoint login_run_tries (tries : nat) (c : cfg) (s : st) (reqs : list (entry * Z * answers)) : list login_out :=
+  match reqs with
+  | [] => []
+  | (e, t, a) :: r => let (s', o) := login_step_tries tries c s e t a in o :: login_run_tries tries c s' r
+  end.
+
+(* backend lookups made for attempts that arrived inside the window [t0, t1] *)
+Fixpoint lookups_in (t0 t1 : Z) (ts : list Z) (outs : list login_out) : Z :=
+  match ts, outs with
+  | t :: r, o :: os => (if (t0 <=? t) && (t <=? t1) then lookups o else 0) + lookups_in t0 t1 r os
+  | _, _ => 0
+  end.
 
 (* ---- correspondence with the float64 implementation.  A decision is a knife edge when the
         exact T_after is within p/2 of the threshold -p (half a nanosecond of refill): there
